@@ -51,7 +51,7 @@ CONV_DE = 1e-12
 def plan(tier):
     if tier == "thorough":
         return {"cases": 4900, "shards": 16, "budget_s": 780}
-    return {"cases": 350, "shards": 8, "budget_s": 110}
+    return {"cases": 322, "shards": 8, "budget_s": 110}
 
 
 def floors(tier):
